@@ -88,6 +88,15 @@ def add_extras(rnd, spec, site):
         a = f'{main}!{wbgen.rc_coord(row, k + 1)}'
         spec['cells'].append({'a': a, 'f': tmpl.format(f=fref), 'p': [site], 'd': [],
                               'extra': True})
+    if rnd.random() < 0.35:
+        # a formula whose result is a *reference* to F (followed after the formula itself has
+        # been calculated), and a dependant of it
+        a = f'{main}!{wbgen.rc_coord(row + 2, 1)}'
+        b = f'{main}!{wbgen.rc_coord(row + 2, 2)}'
+        spec['cells'].append({'a': a, 'f': f'=OFFSET({fref},0,0)', 'p': [site], 'd': [],
+                              'extra': True})
+        spec['cells'].append({'a': b, 'f': f'={wbgen.rc_coord(row + 2, 1)}+1', 'p': [a], 'd': [],
+                              'extra': True})
     if consts and rnd.random() < 0.6:
         # a range that contains F's value next to constants: =SUM(F, const range)
         c = rnd.choice(consts)
